@@ -70,7 +70,7 @@ fn nontrivial_point(p: &Prepared, i: u64) -> bool {
         return true;
     }
     // right after the acknowledgement of a statement that dirtied >= 2 pages (process killed while idle)
-    if kind == "ack" {
+    if kind.starts_with("ack") {
         let mut lo = 0u64;
         for (_, _, pts, _) in &p.acks {
             if *pts + 1 == i {
@@ -207,14 +207,15 @@ fn examine(prop: &str, p: &Prepared, w: &Workload, crash_at: u64, power: bool, k
                 // is it an older acknowledged state (C01: acknowledged work lost) or no prefix at all (C02)?
                 let older = stable.map(|s| (0..s).rev().filter(|j| !p.refs[*j].in_txn_after).any(|j| p.refs[j].tables.len() == p.refs[s].tables.len() && p.refs[j].tables.iter().zip(&p.refs[s].tables).all(|(a, b)| a.name == b.name && a.cols == b.cols && a.indexes == b.indexes) && p.refs[j].obs.values().all(|t| t.rows.is_ok() && t.count.is_ok()) && crate::world::diff_obs(&p.refs[j].obs, &obs_list[0]).is_none())).unwrap_or(false);
                 let facet = first_diff.split(':').next().unwrap_or("").to_string();
-                if older {
+                // inside an open transaction the uncommitted work itself (e.g. a DELETE of every row) can make the
+                // database look like an older state: that is not evidence of lost acknowledged statements
+                let in_open_txn = acked >= 1 && p.refs.get(acked - 1).map(|r| r.in_txn_after).unwrap_or(false);
+                if older && !in_open_txn {
                     if prop == "C01" {
                         out.set_fail(format!("C01|{}|{}|acknowledged_lost|{}", model, kind, stmt_in_flight), describe(&format!("the recovered database equals an OLDER acknowledged state: acknowledged statements are missing ({})", first_diff.chars().take(400).collect::<String>())));
                     } else {
                         out.add_class("other_property:C01_acknowledged_lost");
                     }
-                } else if prop == "C02" || prop == "C40" {
-                    out.set_fail(format!("{}|{}|{}|not_a_prefix_state|{}|{}", prop, model, kind, facet, stmt_in_flight), describe(&format!("the recovered database is neither the acknowledged state nor that state plus the in-flight statement/transaction: {}", first_diff.chars().take(500).collect::<String>())));
                 } else {
                     // C01: what both allowed states contain (rows the in-flight statement does not touch) must be
                     // there; a half-applied in-flight statement is C02's concern
@@ -223,10 +224,29 @@ fn examine(prop: &str, p: &Prepared, w: &Workload, crash_at: u64, power: bool, k
                     // rows in both are untouched by everything that was still uncommitted at the crash
                     // (killed while idle, kind `ack`: nothing is in flight; the uncommitted work is what the open
                     // transaction, if any, has done up to the last acknowledged statement)
-                    let nref = p.refs.get(if kind == "ack" { acked.saturating_sub(1) } else { acked }).filter(|r| r.tables.len() == p.refs[cand_idx[0]].tables.len() && r.tables.iter().zip(&p.refs[cand_idx[0]].tables).all(|(a, b)| a.name == b.name && a.cols == b.cols && a.indexes == b.indexes)).map(|r| &r.obs);
+                    // (in-flight ROLLBACK / ROLLBACK TO: likewise, the uncommitted work is what the transaction had
+                    // done before it; a half-finished undo leaves part of it in place)
+                    let undoing = p.refs.get(acked).map(|r| r.kind == "ROLLBACK" || r.kind == "ROLLBACK_TO").unwrap_or(false);
+                    let nref = p.refs.get(if kind.starts_with("ack") || undoing { acked.saturating_sub(1) } else { acked }).filter(|r| r.tables.len() == p.refs[cand_idx[0]].tables.len() && r.tables.iter().zip(&p.refs[cand_idx[0]].tables).all(|(a, b)| a.name == b.name && a.cols == b.cols && a.indexes == b.indexes)).map(|r| &r.obs);
                     let rec = &obs_list[0];
                     let mut missing: Option<String> = None;
+                    // rows are compared by value: an uncommitted `SET c = c + k` moves rows onto the values of other
+                    // rows, so "this value is in both states" says nothing about one row; such tables are left out
+                    let shifted: BTreeSet<String> = (stable.map(|s| s + 1).unwrap_or(0)..=acked)
+                        .filter_map(|j| p.refs.get(j))
+                        .filter(|r| r.kind == "UPDATE")
+                        .filter_map(|r| {
+                            let mut it = r.sql.split_whitespace();
+                            let t = it.nth(1)?.to_string();
+                            let set = r.sql.split(" SET ").nth(1)?.split(" WHERE ").next()?.to_string();
+                            set.split(", ").any(|a| a.split_once(" = ").map(|(c, e)| e.starts_with(&format!("{} ", c))).unwrap_or(false)).then_some(t)
+                        })
+                        .collect();
                     'tables: for (name, st) in sref.iter() {
+                        if shifted.contains(name) {
+                            out.add_class("table_left_out:uncommitted_self_referential_update");
+                            continue;
+                        }
                         let Some(rt) = rec.get(name) else {
                             missing = Some(format!("table_missing: {}", name));
                             break;
@@ -252,7 +272,15 @@ fn examine(prop: &str, p: &Prepared, w: &Workload, crash_at: u64, power: bool, k
                             (Ok(_), Err(e)) => {
                                 // a row of the torn in-flight statement whose TOAST chunks did not make it makes the
                                 // whole scan fail: named separately (listed finding when the in-flight statement writes one)
-                                let f = if e.contains("TOAST chunk not found") { "scan|error_dangling_toast_pointer" } else { "scan|error" };
+                                let f = if e.contains("TOAST chunk not found") {
+                                    "scan|error_dangling_toast_pointer"
+                                } else if e.contains("expected BTreeLeaf page") || e.contains("unexpected page type") {
+                                    // the tree leads to a page that was never formatted (a page split of the in-flight
+                                    // statement was cut short)
+                                    "scan|error_unformatted_page"
+                                } else {
+                                    "scan|error"
+                                };
                                 missing = Some(format!("{}: SELECT * FROM {} fails: {}", f, name, e));
                                 break;
                             }
@@ -261,26 +289,42 @@ fn examine(prop: &str, p: &Prepared, w: &Workload, crash_at: u64, power: bool, k
                         // index probes are C02's facet ("every index agrees with its table")
                         let _ = &in_next;
                     }
+                    // the in-flight statement writes a toasted value, or rewrites / deletes rows of a table that holds one
+                    let inflight_toast = !kind.starts_with("ack")
+                        && p.refs.get(acked).map(|r| {
+                            r.long_sql || {
+                                let mut it = r.sql.split_whitespace();
+                                let tname = match it.next() {
+                                    Some("UPDATE") => it.next(),
+                                    Some("DELETE") => it.nth(1),
+                                    _ => None,
+                                };
+                                tname.map(|n| p.refs[cand_idx[0]].tables.iter().any(|t| t.name == n && t.rows.iter().any(|row| row.iter().any(|v| matches!(v, Val::Text(s) if s.len() > 1000))))).unwrap_or(false)
+                            }
+                        }).unwrap_or(false);
+                    if prop == "C02" || prop == "C40" {
+                        // the listed kill-model finding is about the in-flight statement / open transaction being
+                        // applied in part; damage to rows that no uncommitted work touched is a different failure
+                        match &missing {
+                            Some(m) => {
+                                let f = m.split(':').next().unwrap_or("").to_string();
+                                let sync = w.setup.iter().find_map(|s| s.strip_prefix("PRAGMA synchronous=")).unwrap_or("?");
+                                out.set_fail(
+                                    format!("{}|{}|{}|acknowledged_rows_damaged|{}|{}{}+sync_{}", prop, model, kind, f, stmt_in_flight, if inflight_toast { "+inflight_touches_toasted_value" } else { "" }, sync),
+                                    describe(&format!("the recovered database is no statement-boundary state, and rows that no uncommitted work touched are affected: {}", m.chars().take(500).collect::<String>())),
+                                );
+                            }
+                            None => out.set_fail(format!("{}|{}|{}|not_a_prefix_state|{}|{}", prop, model, kind, facet, stmt_in_flight), describe(&format!("the recovered database is neither the acknowledged state nor that state plus the in-flight statement/transaction: {}", first_diff.chars().take(500).collect::<String>()))),
+                        }
+                    } else {
                     match missing {
                         Some(m) => {
                             let f = m.split(':').next().unwrap_or("").to_string();
-                            // the in-flight statement writes a toasted value, or rewrites / deletes rows of a table that holds one
-                            let inflight_toast = kind != "ack"
-                                && p.refs.get(acked).map(|r| {
-                                    r.long_sql || {
-                                        let mut it = r.sql.split_whitespace();
-                                        let tname = match it.next() {
-                                            Some("UPDATE") => it.next(),
-                                            Some("DELETE") => it.nth(1),
-                                            _ => None,
-                                        };
-                                        tname.map(|n| p.refs[cand_idx[0]].tables.iter().any(|t| t.name == n && t.rows.iter().any(|row| row.iter().any(|v| matches!(v, Val::Text(s) if s.len() > 1000))))).unwrap_or(false)
-                                    }
-                                }).unwrap_or(false);
                             let stmt_in_flight = if inflight_toast { format!("{}+inflight_touches_toasted_value", stmt_in_flight) } else { stmt_in_flight.to_string() };
                             out.set_fail(format!("C01|{}|{}|acknowledged_missing|{}|{}", model, kind, f, stmt_in_flight), describe(&format!("acknowledged effects are missing after recovery: {}", m.chars().take(500).collect::<String>())));
                         }
                         None => out.add_class("other_property:C02_not_a_prefix"),
+                    }
                     }
                 }
             }
@@ -367,7 +411,8 @@ fn workload_strategy(prop: &'static str, gates: Vec<String>) -> BoxedStrategy<Wo
         truncate: 0,
         allow_returning: false,
         big_keys: true,
-        max_insert_rows: 10,
+        max_insert_rows: if ddl_heavy { 10 } else { 4 },
+        prefill: !ddl_heavy,
         ..Profile::default()
     };
     let sync = if prop == "C01" { Just(2u8).boxed() } else { (0u8..3).boxed() };
@@ -426,8 +471,11 @@ pub fn main(prop: &'static str, tier: Tier, replay: Option<String>) -> i32 {
     let (workloads, quota) = match (prop, tier) {
         ("C40", Tier::Quick) => (10usize, 80usize),
         ("C40", Tier::Thorough) => (60, 100_000),
-        (_, Tier::Quick) => (8, 140),
-        (_, Tier::Thorough) => (30, 100_000),
+        // many workloads with a stratified sample of their points reach more distinct windows (e.g. "killed
+        // right after a COMMIT that followed an autocommit write to the same page") than few workloads
+        // enumerated densely; the thorough tier enumerates every point of each workload
+        (_, Tier::Quick) => (48, 36),
+        (_, Tier::Thorough) => (300, 100_000),
     };
     ctx.set_rule(match prop {
         "C01" => "E-hist workloads (DDL, DML on indexed tables, explicit transactions, checkpoints; wide keys so pages split) run in a child process with PRAGMA wal=ON, synchronous=FULL; every hook point (statement acknowledged, page mutation, file create/grow/remove, WAL frame/flush/sync/truncate/rotate, catalog and meta writes and syncs, mmap syncs) is numbered; the child is ended with _exit at chosen points (quick: stratified by point kind, thorough: every point) and the directory is reopened under the kill model (as left) and the power-loss model (each file cut back to its last synced bytes). Oracle: the recovered observation equals the reference run's observation at the last acknowledged statement boundary outside a transaction, or that plus the whole in-flight statement/transaction. Non-trivial = the crash point lies inside a statement after its first of >= 2 page mutations, right after the acknowledgement of such a statement (kind `ack`: killed while idle), or at a catalog/meta/WAL-truncate/rotate/file-create/remove point; distinct by (workload, point, model).",
@@ -460,6 +508,12 @@ pub fn main(prop: &'static str, tier: Tier, replay: Option<String>) -> i32 {
             }
         };
         total_points += p.points.len();
+        if let Ok(d) = std::env::var("VERIF_DEV_DUMP_SQL") {
+            // development aid: the statements of every workload as the reference run saw them
+            let _ = std::fs::create_dir_all(&d);
+            let text: String = p.refs.iter().map(|r| format!("{} {} {}\n", if r.ok { "ok " } else { "ERR" }, if r.in_txn_after { "T" } else { "-" }, r.sql.chars().take(140).collect::<String>())).collect();
+            let _ = std::fs::write(format!("{}/w{:03}.sql", d, wi), text);
+        }
         // C01, structural facet over the point log (no crash needed): with synchronous=FULL every WAL frame a
         // statement wrote must be followed by a WAL sync before that statement is acknowledged
         if prop == "C01" && w.setup.iter().any(|s| s.ends_with("=FULL")) {
